@@ -19,8 +19,6 @@ import (
 	"bytes"
 	"encoding/json"
 	"fmt"
-	"os"
-	"path/filepath"
 	"strings"
 	"sync"
 
@@ -33,17 +31,6 @@ import (
 
 // finding: MutateToNode shares the copied value's nodes with the event (see notes/finding-C19-splunk-copy-fields-alias.md)
 const splunkAliasFinding = "C19-splunk-copy-fields-alias"
-
-// knownListed: a family that shows a genuine, not yet recorded defect is emitted only once the
-// coordinator has listed the proposed finding id in /verif/known_findings.json
-func knownListed(id string) bool {
-	if os.Getenv("C19_ASSUME_LISTED") != "" { // development aid
-		return true
-	}
-	exe, _ := os.Executable()
-	kf, err := os.ReadFile(filepath.Join(filepath.Dir(filepath.Dir(exe)), "known_findings.json"))
-	return err == nil && bytes.Contains(kf, []byte(id))
-}
 
 type cpEntry struct{ from, to string }
 
